@@ -352,8 +352,12 @@ def gen_skeleton(r, deep):
     else:
         for i in range(r.choice([1, 2, 2, 3])):
             nm = "l%d" % (i + 1)
-            kind = r.choice(["abs", "abs", "abs", "rel", "relcwd", "home", "origin", "dot"])
-            if kind == "abs":
+            kind = r.choice(["abs", "abs", "abs", "rel", "relcwd", "home", "origin", "dot", "empty"])
+            if kind == "empty":
+                # the empty path: documented as IGNORED (it must not come to mean the working directory); modules are still placed in the
+                # working directory so that a loader that searches there finds something
+                phys, ps = cwd, {"b": "rel", "s": []}
+            elif kind == "abs":
                 phys, ps = [nm], {"b": "abs", "s": [nm]}
             elif kind == "rel":
                 phys, ps = [nm], {"b": "rel", "s": ["..", nm]}
@@ -402,13 +406,13 @@ def gen_skeleton(r, deep):
             else:
                 imp = {"k": "import", "name": t["name"], "alias": r.choice(ALIASES)}
             if r.random() < 0.2:
-                kind = r.choice(["sub", "sub", "up", "abs", "home", "origin", "dot"])
+                kind = r.choice(["sub", "sub", "up", "abs", "home", "origin", "dot", "empty"])
                 imp["search"] = {"sub": {"b": "rel", "s": r.choice([["s"], [".", "s"]])},
                                  "up": {"b": "rel", "s": ["..", "u"]},
                                  "abs": {"b": "abs", "s": [r.choice(["l1", "l2", "zz"])]},
                                  "home": {"b": "home", "s": ["hs"]},
                                  "origin": {"b": "origin", "s": ["..", "os"]},
-                                 "dot": {"b": "rel", "s": ["."]}}[kind]
+                                 "dot": {"b": "rel", "s": ["."]}, "empty": {"b": "rel", "s": []}}[kind]
             imps.append(imp)
         return imps
 
